@@ -219,6 +219,8 @@ private:
     std::variant<NoRequest, ResumeRequest, EnableRequest> m_request;
     bool m_smAvailable = false;
     QString m_smId;
+    // address bound for the session of m_smId (a resumed stream does not bind again)
+    QString m_boundJid;
     bool m_canResume = false;
     QString m_resumeHost;
     quint16 m_resumePort = 0;
